@@ -493,6 +493,11 @@ Section Walker.
       apply Wsim_bind; [exact Hclu|]. intros _. repeat first [wstep | apply flush_sim].
   Qed.
 
+  (* _note_missing_children reads the counter and the pending list only; of `a` it keeps seg_count, cur_line, ls_id *)
+  Lemma note_missing_children_sim r :
+    Wsim (note_missing_children m (mk_a d1) r) (note_missing_children m (mk_a d2) r).
+  Proof. unfold note_missing_children. cbv zeta. repeat first [apply append_missing_sim | wstep]. Qed.
+
   Lemma Wsim_bind_lift {A B} (r : result A) (f1 f2 : A -> W B) :
     (forall a, r = Ok a -> Wsim (f1 a) (f2 a)) -> Wsim (w_bind (w_lift r) f1) (w_bind (w_lift r) f2).
   Proof.
@@ -509,7 +514,7 @@ Section Walker.
 
   Ltac wauto :=
     repeat first
-      [ assumption | apply append_missing_sim | apply flush_sim | apply check_seg_usage_sim | apply check_loop_usage_sim
+      [ assumption | apply append_missing_sim | apply note_missing_children_sim | apply flush_sim | apply check_seg_usage_sim | apply check_loop_usage_sim
       | apply seg_not_found_sim
       | (apply is_loop_match_sim; first [assumption | eapply get_node_ok; eassumption])
       | (apply goto_seg_match_sim; first [assumption | eapply get_node_ok; eassumption])
